@@ -290,7 +290,13 @@ class SyncModel:
                             changed = True
                             break
         rel.discard(f"{self.cal.module.name}:Calibrator.__init__")
-        return {q for q in rel if not q.endswith(".__init__") and not q.endswith(".setter")}
+        out = {q for q in rel if not q.endswith(".__init__") and not q.endswith(".setter")}
+        # a generator that is *iterated* (not entered as a context manager) interleaves two frames: the small-step semantics does not model that
+        for f in cands:
+            if f.qualname in out and "contextmanager" not in " ".join(f.decorators) and any(isinstance(x, (ast.Yield, ast.YieldFrom)) for x in walk_scope(f.node)):
+                raise AnalysisError(f"{f.loc(f.node)}: {f.qualname.split(':')[1]} is a generator function taking part in the thread protocol; "
+                                    "generator iteration is outside the vocabulary of the synchronisation model")
+        return out
 
 
 class Machine:
